@@ -194,6 +194,72 @@ package q
 //@ sweep C15: AccessorExpr.Evaluate, FirstExpr.Evaluate, LastExpr.Evaluate, LengthExpr.Evaluate, QuestionMarkExpr.Evaluate, CombineExpr.Evaluate, OnlyExpr.Evaluate
 //@ sweep C15: Engine.StatementByVariableName, VariableExpr.Evaluate, CallExpr.Evaluate, ConstantExpr.Evaluate, ValueExpr.Evaluate
 //@ sweep C15: NodesWithTagPathExpr.Evaluate, BinaryExpr.Evaluate, ObjectExpr.Evaluate
+// The formatters every command hands a query result to (session 5: the IsNil
+// crash of 447502d sat here, outside every contract).
+// The precondition 'the formatter has a writer' is what cmd/gedcom/query.go
+// establishes (os.Stdout in every branch; not under contract: assumed). The
+// component library below HTMLFormatter (core.Page.WriteHTMLTo, which panics
+// on a failed write) is opaque here. Trusted frame: a formatter writes to its
+// writer and to fresh memory, not to the formatter itself.
+//@ func CSVFormatter.Header
+//@   props C15
+//@   safety
+//@   requires f != nil
+//@   assigns H.gedcom.*, M.*, E.string, alloc
+//@   trustframe
+//@ func CSVFormatter.prepareLine
+//@   props C15
+//@   safety
+//@   requires f != nil
+//@   assigns H.gedcom.*, M.*, alloc
+//@   trustframe
+//@ func CSVFormatter.Write
+//@   props C15
+//@   safety
+//@   requires writer: f != nil && !isnil(f.Writer)
+//@   assigns E.byte, E.string, alloc
+//@   trustframe
+//@   loop 1 invariant counted-from-zero: i >= 0
+//@ func CSVFormatter.writeLine
+//@   props C15
+//@   safety
+//@   requires writer: f != nil && !isnil(f.Writer)
+//@   assigns E.byte, E.string, alloc
+//@   trustframe
+//@   loop 1 invariant counted-from-zero: i >= 0
+//@ func CSVFormatter.writeValue
+//@   props C15
+//@   safety
+//@   requires writer: f != nil && !isnil(f.Writer)
+//@   assigns E.byte, E.string, alloc
+//@   trustframe
+//@ func GEDCOMFormatter.Write
+//@   props C15
+//@   safety
+//@   requires writer: f != nil && !isnil(f.Writer)
+//@   assigns E.byte, E.string, alloc
+//@   trustframe
+//@   loop 1 invariant counted-from-zero: i >= 0
+//@ func HTMLFormatter.Write
+//@   props C15
+//@   safety
+//@   requires writer: f != nil && !isnil(f.Writer)
+//@   assigns E.byte, E.string, alloc
+//@   trustframe
+//@   opaque Page.WriteHTMLTo, NewPage, NewRow, NewColumn, NewSpace
+//@   loop 1 invariant counted-from-zero: i >= 0
+//@ func JSONFormatter.Write
+//@   props C15
+//@   safety
+//@   requires writer: f != nil && !isnil(f.Writer)
+//@   assigns E.byte, E.string, alloc
+//@   trustframe
+//@ func PrettyJSONFormatter.Write
+//@   props C15
+//@   safety
+//@   requires writer: f != nil && !isnil(f.Writer)
+//@   assigns E.byte, E.string, alloc
+//@   trustframe
 // (two documents are indexed after the loop: each round appends one or returns)
 //@ func MergeDocumentsAndIndividualsExpr.Evaluate
 //@   props C15
